@@ -264,3 +264,116 @@ def account_trace(ctx, module, trace, acc, keyfn, sample_at=1):
         r = trace[acc]
         ctx.violation("%s:rejected:%s" % (module, keyfn(r)), {"record": r, "index": acc})
     ctx.sample({"recorded_trace_record": trace[min(sample_at, len(trace) - 1)]})
+
+
+class Fails(object):
+    """violations by key, keeping the smallest failing scenario of each"""
+
+    def __init__(self):
+        self.by_key = {}
+
+    def add(self, key, sz, detail):
+        cur = self.by_key.get(key)
+        if cur is None or sz < cur[0]:
+            self.by_key[key] = (sz, detail)
+
+    def report(self, ctx):
+        for key in sorted(self.by_key):
+            ctx.violation(key, self.by_key[key][1])
+
+
+# ---------------------------------------------------------------- C08: leaves with str(), special leaves
+def decode_s(enc, valuation, special, rnd=None, reps=True):
+    """like decode, for the leaves of spec/CtxOpsRef.tla: kb / $key are the string in field s,
+    $default / $rendered / $value come from *special*"""
+    if is_d(enc):
+        its = list(items(enc))
+        if rnd is not None and len(its) > 1:
+            rnd.shuffle(its)
+        else:
+            its.sort()
+        return dict((k, decode_s(v, valuation, special, rnd, reps)) for k, v in its)
+    v = enc["v"]
+    if v in ("kb", "$key"):
+        return enc["s"]
+    if v in special:
+        return special[v]
+    ctors = PYCLASSES[valuation[v]][2]
+    return (rnd.choice(ctors) if rnd is not None and reps else ctors[0])()
+
+
+def symbols_s(enc, acc=None):
+    """symbolic classes (c0, c1, c2) in an encoded value or list of values"""
+    if acc is None:
+        acc = set()
+    if isinstance(enc, list):
+        for e in enc:
+            symbols_s(e, acc)
+    elif isinstance(enc, dict) and "k" in enc:
+        if is_d(enc):
+            for _, v in items(enc):
+                symbols_s(v, acc)
+        elif enc["v"] in SYMBOLS:
+            acc.add(enc["v"])
+    return acc
+
+
+class EncoderS(Encoder):
+    """Encoder adding s = str(value) to leaves; known special objects keep their symbolic leaf"""
+
+    def __init__(self, specials=(), by_eq=False):
+        Encoder.__init__(self)
+        self.specials = list(specials)      # [(object, leaf encoding)]
+        self.by_eq = by_eq                  # also recognise (deep) copies of the special objects
+
+    def enc(self, obj):
+        for o, leaf in self.specials:
+            if obj is o or (self.by_eq and type(obj) is type(o) and obj == o):
+                return dict(leaf)
+        if isinstance(obj, dict):
+            return {"k": "D", "m": dict((k, self.enc(v)) for k, v in obj.items())}
+        try:
+            s = str(obj)
+        except Exception:    # noqa
+            s = "<unprintable>"
+        return {"k": "L", "v": repr(obj)[:40], "e": self.cls(obj), "s": s}
+
+
+DEFAULT_LEAF = {"k": "L", "v": "$default", "e": 90, "s": "<default>"}
+EMPTY = {"k": "D", "m": {}}
+
+
+def lookup(d, path):
+    """(found, value) following path through dictionaries"""
+    for k in path:
+        if not isinstance(d, dict) or k not in d:
+            return False, None
+        d = d[k]
+    return True, d
+
+
+def template_text(tpl):
+    return "".join(t["s"] if t["t"] == "lit" else "{{" + ".".join(t["p"]) + "}}" for t in tpl)
+
+
+def dotted_ok(path):
+    """can the path be written as a dotted string whose split gives it back ?"""
+    return path != [""] and all("." not in k for k in path)
+
+
+def key_notations(path):
+    """the notations of get_recursively naming the path: [(name, keys)]"""
+    out = [("list", list(path))]
+    if all(k for k in path):
+        out.append(("string", ".".join(path)))
+        # one key per level, closed by an empty dictionary / with the last key as the value
+        cur = {}
+        for k in reversed(path):
+            cur = {k: cur}
+        out.append(("dict", cur))
+        if len(path) >= 2:
+            cur = path[-1]
+            for k in reversed(path[:-1]):
+                cur = {k: cur}
+            out.append(("dict-value", cur))
+    return out
